@@ -1024,6 +1024,121 @@ def siptw_targets():
     return out
 
 
+def slcoef_targets():
+    """zepid.superlearner.stackers.SuperLearner: what fit does with the nnls output (threshold sqrt(eps), normalisation by the
+    sum, the discrete branch's one-hot overwrite at np.argmax, which candidates are refit), the L2 cross-validated error,
+    and what predict combines (column zeroed when the coefficient is not > 0, np.dot with the coefficients)."""
+    SL = os.path.join(REPO, 'zepid/superlearner/stackers.py')
+    tree = ast.parse(open(SL).read())
+    fit = find_function(tree, 'SuperLearner.fit')
+    pred = find_function(tree, 'SuperLearner.predict')
+    err = find_function(tree, 'SuperLearner._error_term_')
+    out = []
+
+    def one(fn, target, what):
+        hits = [st for st in ast.walk(fn) if isinstance(st, ast.Assign) and ast.unparse(st.targets[0]) == target]
+        if len(hits) != 1:
+            raise TranslateError('expected one assignment to %s in %s, found %d' % (target, what, len(hits)))
+        return hits[0]
+
+    # --- nnls -> coefs
+    st = one(fit, 'coefs, _', 'SuperLearner.fit') if any(ast.unparse(x.targets[0]) == 'coefs, _' for x in ast.walk(fit) if isinstance(x, ast.Assign)) \
+        else one(fit, '(coefs, _)', 'SuperLearner.fit')
+    if ast.unparse(st.value) != 'nnls(cv_pred, y)':
+        raise TranslateError('SuperLearner.fit: coefficients come from `%s`' % ast.unparse(st.value))
+    if ast.unparse(one(fit, 'machine_limit', 'SuperLearner.fit').value) != 'np.finfo(np.double).eps':
+        raise TranslateError('SuperLearner.fit: machine_limit')
+    # the sequence between nnls and the refit: array, machine_limit, threshold, normalise, store
+    seq_ = [ast.unparse(x) for x in fit.body if isinstance(x, ast.Assign) and ast.unparse(x.targets[0]) in
+            ('coefs', 'machine_limit', 'coefs[coefs < np.sqrt(machine_limit)]', 'self.coefficients', "self.est_performance['coefs']")]
+    want = ['coefs = np.array(coefs)', 'machine_limit = np.finfo(np.double).eps', 'coefs[coefs < np.sqrt(machine_limit)] = 0',
+            'self.coefficients = coefs / np.sum(coefs)', "self.est_performance['coefs'] = self.coefficients"]
+    if seq_ != want:
+        raise TranslateError('SuperLearner.fit: coefficient post-processing is %s' % seq_)
+    # sqrt(2^-52) = 2^-26 exactly
+    out.append(RawTarget('sl_threshold', '(* coefs[coefs < np.sqrt(np.finfo(np.double).eps)] = 0 ;  sqrt(2^-52) = 2^-26 exactly *)\n'
+                         'Definition sl_threshold_elem_Q (v_c : Q) : Q :=\n  if Qlt_bool v_c (1 # 67108864) then (0 # 1) else v_c.\n'
+                         '(* self.coefficients = coefs / np.sum(coefs) *)\n'
+                         'Definition sl_normalise_Q (coefs : list Q) : list Q :=\n  map (fun c => c / Qsum (fun x => x) coefs) coefs.',
+                         ['coefs'], ['coefficients']))
+    # --- discrete / non-discrete refit
+    tops = [x for x in fit.body if isinstance(x, ast.If) and ast.unparse(x.test) == 'self.discrete']
+    if len(tops) != 1:
+        raise TranslateError('expected one `if self.discrete:` in SuperLearner.fit')
+    db = [x for x in tops[0].body if not (isinstance(x, ast.If) and ast.unparse(x.test) == 'self._verbose_')]
+    if not (len(db) == 2 and ast.unparse(db[0]) == 'discrete_sl_id = np.argmax(self.coefficients)' and isinstance(db[1], ast.For)
+            and ast.unparse(db[1].iter) == 'range(n_est)'):
+        raise TranslateError('SuperLearner.fit: discrete branch has changed shape')
+    ifs = [x for x in db[1].body if isinstance(x, ast.If) and ast.unparse(x.test) != 'self._verbose_']
+    if len(ifs) != 1 or ast.unparse(ifs[0].test) != 'est_id == discrete_sl_id':
+        raise TranslateError('SuperLearner.fit: discrete loop test')
+
+    def body_facts(stmts):
+        fits = any(ast.unparse(x) == 'est.fit(X, y)' for x in stmts)
+        sets = [ast.unparse(x.value) for x in stmts if isinstance(x, ast.Assign) and ast.unparse(x.targets[0]) == 'self.coefficients[est_id]']
+        app = sum(ast.unparse(x) == 'self.fit_estimators.append(est)' for x in stmts)
+        other = [ast.unparse(x)[:50] for x in stmts if not (isinstance(x, ast.If) and ast.unparse(x.test) == 'self._verbose_')
+                 and ast.unparse(x) not in ('est.fit(X, y)', 'self.fit_estimators.append(est)')
+                 and not (isinstance(x, ast.Assign) and ast.unparse(x.targets[0]) == 'self.coefficients[est_id]')]
+        if other or app != 1 or len(sets) > 1:
+            raise TranslateError('SuperLearner.fit: refit branch statements %s' % other)
+        return fits, (sets[0] if sets else None)
+    f1, s1 = body_facts(ifs[0].body)
+    f0, s0 = body_facts(ifs[0].orelse)
+    if s1 not in ('1', '0') or s0 not in ('1', '0'):
+        raise TranslateError('SuperLearner.fit: discrete coefficients set to %s / %s' % (s1, s0))
+    out.append(RawTarget('sl_discrete', '(* discrete super learner: at est_id == np.argmax(coefficients) / elsewhere *)\n'
+                         'Definition sl_discrete_elem_Q (est_id sel : nat) : Q :=\n  if Nat.eqb est_id sel then (%s # 1) else (%s # 1).\n'
+                         'Definition sl_discrete_refit_Q (est_id sel : nat) : bool :=\n  if Nat.eqb est_id sel then %s else %s.'
+                         % (s1, s0, str(f1).lower(), str(f0).lower()), ['est_id', 'sel'], ['coef', 'refit']))
+    nb = [x for x in tops[0].orelse if isinstance(x, ast.For)]
+    if len(nb) != 1 or ast.unparse(nb[0].iter) != 'range(n_est)':
+        raise TranslateError('SuperLearner.fit: non-discrete loop')
+    ifs = [x for x in nb[0].body if isinstance(x, ast.If) and ast.unparse(x.test) != 'self._verbose_']
+    if len(ifs) != 1 or ast.unparse(ifs[0].test) != 'self.coefficients[est_id] > 0':
+        raise TranslateError('SuperLearner.fit: non-discrete refit test `%s`' % (ast.unparse(ifs[0].test) if ifs else None))
+    f1, s1 = body_facts(ifs[0].body)
+    f0, s0 = body_facts(ifs[0].orelse)
+    if s1 is not None or s0 is not None:
+        raise TranslateError('SuperLearner.fit: non-discrete branch rewrites coefficients')
+    out.append(RawTarget('sl_refit', '(* super learner: candidate refit on all rows iff its coefficient > 0 *)\n'
+                         'Definition sl_refit_Q (v_c : Q) : bool :=\n  if Qlt_bool (0 # 1) v_c then %s else %s.' % (str(f1).lower(), str(f0).lower()),
+                         ['c'], ['refit']))
+    # --- cv error (L2)
+    l2 = [x for x in err.body if isinstance(x, ast.If) and ast.unparse(x.test) in ("self.loss_function == 'l2'", 'self.loss_function == "l2"')]
+    if len(l2) != 1 or len(l2[0].body) != 1 or ast.unparse(l2[0].body[0]) != 'error = np.sum((y_obs - y_pred) ** 2) / y_obs.shape[0]':
+        raise TranslateError('SuperLearner._error_term_: L2 branch')
+    calls = [x for x in ast.walk(fit) if isinstance(x, ast.Call) and ast.unparse(x.func) == 'self._error_term_']
+    if len(calls) != 1 or ast.unparse(calls[0]) != 'self._error_term_(y, cv_pred[:, est_id])':
+        raise TranslateError('SuperLearner.fit: cross-validated error call')
+    out.append(RawTarget('sl_cv_error', '(* np.sum((y_obs - y_pred) ** 2) / y_obs.shape[0] on (y, cv_pred[:, est_id]) *)\n'
+                         'Definition sl_cv_error_l2_Q (y p : list Q) : Q :=\n'
+                         '  Qsum (fun yp => (fst yp - snd yp) * (fst yp - snd yp)) (combine y p) / inject_Z (Z.of_nat (length y)).',
+                         ['y', 'p'], ['error']))
+    # --- predict
+    loops = [x for x in pred.body if isinstance(x, ast.For)]
+    if len(loops) != 1 or ast.unparse(loops[0].iter) != 'range(n_est)' or len(loops[0].body) != 1 or not isinstance(loops[0].body[0], ast.If):
+        raise TranslateError('SuperLearner.predict: candidate loop')
+    pi = loops[0].body[0]
+    if not (ast.unparse(pi.test) == 'self.coefficients[est_id] > 0' and len(pi.body) == 1 and len(pi.orelse) == 1
+            and ast.unparse(pi.body[0]) == 'cv_pred[:, est_id] = self._predict_(self.fit_estimators[est_id], X)'
+            and ast.unparse(pi.orelse[0]) == 'cv_pred[:, est_id] = 0'):
+        raise TranslateError('SuperLearner.predict: loop body `%s`' % ast.unparse(pi)[:100])
+    l2p = [x for x in pred.body if isinstance(x, ast.If) and ast.unparse(x.test) in ("self.loss_function == 'l2'", 'self.loss_function == "l2"')]
+    if len(l2p) != 1 or [ast.unparse(x) for x in l2p[0].body] != ['y_pred = np.dot(cv_pred, self.coefficients)']:
+        raise TranslateError('SuperLearner.predict: L2 combination')
+    nl = [x for x in pred.body if isinstance(x, ast.If) and ast.unparse(x.test) in ("self.loss_function == 'nloglik'", 'self.loss_function == "nloglik"')]
+    wantn = ['cv_pred_bound = probability_bounds(cv_pred, bounds=self._bounds_)', 'logodds = logit(cv_pred_bound)',
+             'logodds_pred = np.dot(logodds, self.coefficients)', 'y_pred = inverse_logit(logodds_pred)']
+    if len(nl) != 1 or [ast.unparse(x) for x in nl[0].body] != wantn:
+        raise TranslateError('SuperLearner.predict: NLogLik combination')
+    out.append(RawTarget('sl_predict', '(* predict, one new row: column j is the candidate\'s prediction iff coefficient j > 0, else 0; np.dot *)\n'
+                         'Definition sl_used_pred_Q (v_c v_p : Q) : Q :=\n  if Qlt_bool (0 # 1) v_c then v_p else (0 # 1).\n'
+                         'Definition sl_dot_Q (vals coefs : list Q) : Q :=\n  Qsum (fun vc => fst vc * snd vc) (combine vals coefs).',
+                         ['c', 'p'], ['pred']))
+    return out
+
+
 class RawTargetR(RawTarget):
     """ready-made Coq text over R"""
     def __init__(self, name, r_text):
@@ -1050,6 +1165,7 @@ GROUPS = {
     'drci': drci_targets,
     'gener': gener_targets,
     'siptw': siptw_targets,
+    'slcoef': slcoef_targets,
 }
 
 
@@ -1064,7 +1180,7 @@ def generate(groups=None):
         try:
             ts = fn()
             r = HEADER_R + '\n' + '\n\n'.join(t.coq() for t in ts) + '\n'
-            q = HEADER_Q + ('From Zepid Require Import Base.QSum Base.QAgg.\n' if g in ('pool', 'gfmarg', 'siptw') else '') + ('From Zepid Require Import Base.QSum Base.QAgg Base.Rows Model.Estimators.\n' if g == 'xfvar' else '') + ('From Zepid Require Import Model.Gate.\n' if g == 'gate' else '') + ('From Zepid Require Import Base.QSum Base.QAgg Model.Generalize.\n' if g == 'gener' else '') + '\n' + '\n\n'.join(t.coq_q() for t in ts) + '\n'
+            q = HEADER_Q + ('From Zepid Require Import Base.QSum Base.QAgg.\n' if g in ('pool', 'gfmarg', 'siptw', 'slcoef') else '') + ('From Zepid Require Import Base.QSum Base.QAgg Base.Rows Model.Estimators.\n' if g == 'xfvar' else '') + ('From Zepid Require Import Model.Gate.\n' if g == 'gate' else '') + ('From Zepid Require Import Base.QSum Base.QAgg Model.Generalize.\n' if g == 'gener' else '') + '\n' + '\n\n'.join(t.coq_q() for t in ts) + '\n'
             side[g] = [t.sidecar() for t in ts]
             err = None
         except (TranslateError, SyntaxError, OSError) as e:
